@@ -103,6 +103,7 @@ func runC14(c *engine.Ctx) {
 	w.rich = p.Draw(3, "cfg:rich") == 2
 	repoURL := []string{"git@github.com:org/repo.git", "https://github.com/org/repo", "r"}[p.Draw(3, "cfg:repo")]
 	o := w.opts(3)
+	o.BothCommandKeys = p.Draw(2, "cfg:both-command-keys") == 1
 	o.OnlyCommandish = true
 	o.TypeKey = false
 	doc := o.Pipeline()
